@@ -117,6 +117,7 @@ func sweepV3[T comparable, P Object[T]](r *Report, im *Impl[T, P]) {
 
 // CheckC03 — v3.0/v3.1 scores equal the specification equations.
 func CheckC03(r *Report) {
+	ColdStart(r)
 	r.Rule = "E3 scorespace: per version all 16,588,800 effective environmental classes (8 base metrics x E,RL,RC x CR,IR,AR, X a code of its own) built as canonical objects through Set; BaseScore, TemporalScore, EnvironmentalScore equal the exact rational/integer evaluation of the specification equations (PR by scope, 0.915 cap, version's ModifiedImpact, 10 cap, <=0 => 0, Roundup); Impact/Exploitability within 1e-9 relative; non-trivial = class whose environmental score differs from its base score"
 	r.Bound = "complete for effective classes of both versions (2 x 16,588,800) in canonical representation; plus every class x one alternative representation per overridable metric (all 22 in thorough) and the all-overridden pattern; deeper representation bounds in C10"
 	sweepV3(r, I30)
